@@ -13,6 +13,7 @@ def builtinArity : Builtin → Nat
   | .trace | .objectFieldsEx | .map | .makeArray | .filter | .flatMap | .mapWithIndex | .mapWithKey | .join
   | .range | .member | .count | .equals | .compare | .primitiveEquals | .assertEqual | .sort | .set => 2
   | .objectHasEx | .foldl | .foldr | .filterMap => 3
+  | .pure p => (pureSpec p).arity
 
 /-- `n` arguments are right for the builtin: `std.sort` and `std.set` also come without `keyF` -/
 def builtinArityOk (b : Builtin) (n : Nat) : Prop :=
